@@ -18,7 +18,7 @@ VARIANT_TY = {"UTF8String": "TUtf8", "OctetString": "TOctets", "Integer32": "TI3
               "AddressIPv4": "TIPv4", "AddressIPv6": "TIPv6", "Float32": "TF32", "Float64": "TF64", "Unknown": "TUnknown"}
 WHICH = {"C15": ["type_names"], "C14": ["type_names"], "C03": ["cmds", "apps", "avp_flags"], "C04": ["cmds", "apps", "nesting"],
          "C01": ["avp_flags", "header_length"], "C02": ["avp_flags", "header_length"], "C07": ["max_frame", "header_length"],
-         "C06": ["max_frame", "header_length"], "C17": ["rfc868_offset"], "C10": ["panic_unwinds"]}
+         "C06": ["max_frame", "header_length"], "C17": ["rfc868_offset"], "C10": ["panic_unwinds"], "C13": ["tls_name"]}
 
 
 def _read(repo, rel):
@@ -103,6 +103,13 @@ def extract(repo):
         if re.search(r"^\s*panic\s*=\s*[\"']abort[\"']", m.group(2), flags=re.M):
             aborting.append(m.group(1))
     f["panic_unwinds"] = aborting if cargo else None
+    # the function computing the name handed to the TLS library: recognised only in exactly the shape the model transcribes
+    # (strip one opening character, cut at the FIRST closing character, else cut at the LAST separator, else the whole string)
+    cl = re.sub(r"\s+", " ", _strip_comments(_read(repo, "src/transport/client.rs")))
+    m = re.search(r"fn tls_domain\( ?(\w+) ?: ?&str ?\) ?-> ?&str ?\{ ?if let Some\( ?(\w+) ?\) ?= ?\1 ?\. ?strip_prefix\( ?'(.)' ?\) ?\{ ?"
+                  r"if let Some\( ?(\w+) ?\) ?= ?\2 ?\. ?find\( ?'(.)' ?\) ?\{ ?return &\2\[ ?\.\. ?\4 ?\] ?; ?\} ?\} ?"
+                  r"match \1 ?\. ?rfind\( ?'(.)' ?\) ?\{ ?Some\( ?(\w+) ?\) ?=> ?&\1\[ ?\.\. ?\7 ?\] ?, ?None ?=> ?\1 ?,? ?\} ?\}", cl)
+    f["tls_name"] = (ord(m.group(3)), ord(m.group(5)), ord(m.group(6))) if m and all(ord(m.group(i)) < 128 for i in (3, 5, 6)) else None
     tr = _strip_comments(_read(repo, "src/transport/mod.rs"))
     f["max_frame"] = None
     m = re.search(r"if\s+\(?\s*length(?:\s+as\s+\w+)?\s*\)?\s*>\s*([^\{]+)\{", tr)
@@ -126,7 +133,7 @@ def coq_text(pid, facts):
     want = WHICH.get(pid, [])
     tied, skipped = [], []
     out = ["(* GENERATED on every run by lib/srctie.py from /repo's current source text.  Not committed. *)",
-           "Require Import DV.Base.Bytes DV.Base.Utf8 DV.Model.Leaf DV.Spec.Wire DV.Model.Avp DV.Model.Message DV.Model.Dict.",
+           "Require Import DV.Base.Bytes DV.Base.Utf8 DV.Model.Leaf DV.Spec.Wire DV.Model.Avp DV.Model.Message DV.Model.Dict DV.Model.Tls.",
            "From Coq Require Import List NArith ZArith. Import ListNotations.", ""]
     for item in want:
         v = facts.get(item)
@@ -173,6 +180,12 @@ def coq_text(pid, facts):
             out.append("(* no build profile of the crate turns a panic into an abort of the process: the isolation of a panicking handler\n"
                        "   (C10_noninterference's assumption) holds in every profile the crate declares *)\n"
                        "Theorem source_panics_unwind_in_every_profile : src_profiles_with_panic_abort = [].\nProof. reflexivity. Qed.")
+        elif item == "tls_name":
+            out.append("Definition src_tls_open : byte := x%02x. Definition src_tls_close : byte := x%02x. Definition src_tls_sep : byte := x%02x." % v)
+            out.append("(* tls_domain has, token for token, the shape Model/Tls.v domain_of transcribes (strip_prefix / find / rfind with\n"
+                       "   slices [..end] and [..i]); its three character literals are the model's, so C13_domain_complete speaks about it *)\n"
+                       "Theorem source_tls_name_characters_are_the_models : src_tls_open = lbr /\\ src_tls_close = rbr /\\ src_tls_sep = colon.\n"
+                       "Proof. repeat split; reflexivity. Qed.")
         elif item == "rfc868_offset":
             out.append(f"Definition src_rfc868_offset : Z := {v}%Z.")
             out.append("Theorem source_epoch_offset_is_the_models : src_rfc868_offset = rfc868_offset.\nProof. reflexivity. Qed.")
@@ -189,7 +202,7 @@ def check(pid, repo, coq_dir, cache_dir):
         return res
     os.makedirs(cache_dir, exist_ok=True)
     model_stamp = hashlib.sha256("".join(open(os.path.join(coq_dir, "theories", p)).read() for p in
-                                         ("Model/Leaf.v", "Model/Message.v", "Model/Dict.v", "Base/Bytes.v", "Spec/Wire.v")).encode()).hexdigest()
+                                         ("Model/Leaf.v", "Model/Message.v", "Model/Dict.v", "Model/Tls.v", "Base/Bytes.v", "Spec/Wire.v")).encode()).hexdigest()
     h = hashlib.sha256((text + model_stamp).encode()).hexdigest()[:20]
     ok_stamp = os.path.join(cache_dir, f"{pid}-{h}.ok")
     if os.path.exists(ok_stamp):
